@@ -48,7 +48,9 @@ def gen_time_ops(rng, n):
     for i in range(n):
         k = kinds[i % len(kinds)] if i < 4 * len(kinds) else rng.choice(kinds)
         if k in ("add", "sub"):
-            a, b = et(B // 2), et(B // 2)
+            # the property quantifies over OPERANDS below 2^53 us: in a third of the cases the exact result lies beyond 2^53
+            m = B if rng.random() < 0.35 else B // 2
+            a, b = et(m), et(m)
             ops.append([k, a, b])
         elif k in ("eq", "lt", "le", "gt", "ge", "ne", "dict") and rng.random() < 0.15:
             # neighbours of the `invalid` marker (-1us) in every unit: values whose integer hash CPython alters
@@ -76,7 +78,8 @@ def gen_time_ops(rng, n):
             a = et(10 ** 9)
             ops.append([k, a, rng.choice([0, 1, -1, 2, 3, 1000, -7])])
         elif k == "assoc":
-            ops.append([k, et(B // 4), et(B // 4), et(B // 4)])
+            m = B if rng.random() < 0.3 else B // 4
+            ops.append([k, et(m), et(m), et(m)])
     return ops
 
 
